@@ -259,11 +259,27 @@ func (g *G) genMeta() {
 				g.L.Add("alias:template-import")
 			}
 			name := pickStr(g, pool, "alias")
-			if used[name] || name == "fx" {
+			if g.O.AliasHeavy && g.chance(4, "alias-fx") {
+				name = "fx" // an alias equal to the first segment of every fixture path
+			}
+			if used[name] {
 				continue
 			}
 			used[name] = true
 			target := g.pkgs[g.draw(len(g.pkgs), "aliastarget")]
+			if name == "fx" {
+				// fx/lib then denotes fx/a/lib (which exists); literal full paths are no longer spellable
+				g.Aliases = append(g.Aliases, cfg.KV{K: "fx", V: "fx/a"})
+				hasALib := false
+				for _, p := range g.pkgs {
+					hasALib = hasALib || p == "fx/a/lib"
+				}
+				if !hasALib {
+					g.pkgs = append(g.pkgs, "fx/a/lib")
+				}
+				g.L.Add("alias:first-segment-of-all-paths")
+				continue
+			}
 			if g.chance(25, "prefixalias?") {
 				// alias of a proper prefix of the path
 				parts := strings.Split(target, "/")
@@ -273,6 +289,12 @@ func (g *G) genMeta() {
 				}
 			}
 			g.Aliases = append(g.Aliases, cfg.KV{K: name, V: target})
+		}
+		// every package in play must stay spellable (an alias equal to the first path segment hides literal paths)
+		for i, p := range g.pkgs {
+			if len(importSpellings(p, g.Aliases, false)) == 0 {
+				g.Aliases = append(g.Aliases, cfg.KV{K: fmt.Sprintf("px%d", i), V: p})
+			}
 		}
 		m.Imports = append([]cfg.KV(nil), g.Aliases...)
 		if len(g.Aliases) > 0 {
@@ -297,7 +319,14 @@ func (g *G) genMeta() {
 // ---------------------------------------------------------------------------
 // literals and patterns
 
+// boundaryTexts look like the special argument forms but are plain strings by the documented rules.
+var boundaryTexts = []string{"!value", "!tagged", "!valu", "!valueX", "!taggedx y", "!", "$gontaine", "$gontainerX", " $gontainer", " @a", "!Value x", "! value x", "x@a", "x!tagged t"}
+
 func (g *G) genText(label string) string {
+	if g.chance(6, label+"-boundary") {
+		g.L.Add("text:special-form-boundary")
+		return pickStr(g, boundaryTexts, label+"-bt")
+	}
 	if g.O.Unicode && g.chance(30, label+"-uni") {
 		g.L.Add("text:unicode")
 		return rapid.StringOfN(rapid.RuneFrom([]rune{'a', 'Z', '0', ' ', '"', '\'', '\\', '\n', '\t', 'é', '世', '😀', '$', '@', '!', '{', '}', '`', ':', '#', '-', '.', '(', ')', ' ', '\x01'}), 1, 8, -1).Draw(g.T, label)
@@ -594,7 +623,7 @@ func (g *G) genArgs(max int, svcs, openTags []string, label string) []cfg.Val {
 
 func (g *G) genServices() {
 	n := 1 + g.draw(g.O.MaxServices, "nservices")
-	var names []string           // non-failing earlier services usable as @refs
+	var names []string             // non-failing earlier services usable as @refs
 	carriers := map[string][]int{} // tag -> indices of carriers
 	closed := map[string]bool{}    // tags already consumed: later services must not carry them
 	usedGetters := map[string]bool{}
@@ -738,6 +767,12 @@ func (g *G) genServices() {
 			}
 		} else if g.chance(5, lbl+"-mustfalse") {
 			s.Must = cfg.P(false) // explicit false without getter is legal
+		}
+		if s.Getter == nil && s.Type == nil && s.Ctor != nil && g.chance(25, lbl+"-type-no-getter") {
+			// a type without a getter is legal and unused by the emitted code (it only shows in the comment)
+			tp := g.pkgs[g.draw(len(g.pkgs), lbl+"-tng-pkg")]
+			s.Type = cfg.P(join(g.spell(tp, false, lbl+"-tng-imp"), pickStr(g, []string{"Iface", "Val", "Num"}, lbl+"-tng-t")))
+			g.L.Add("type-without-getter")
 		}
 		g.C.Services = append(g.C.Services, s)
 		infos = append(infos, info)
